@@ -76,6 +76,11 @@ func mrLocal(fam string) *net.UDPAddr {
 var mrDPC = map[string]string{"d_read": "idle", "d_lookup": "lookup", "d_ufrag": "ufrag", "d_enq": "enq", "d_put": "put", "done": "idle", "absent": "idle"}
 var mrWPC = map[string]string{"w_start": "start", "contains": "contains", "append": "append", "register": "register", "done": "idle", "absent": "idle"}
 var mrRPC = map[string]string{"r_unlist": "unlist", "r_unmap": "unmap", "done": "idle", "absent": "idle"}
+
+// the watcher goroutine of a closed connection (adopted as process "k" when it reaches removeConns): it has no wrapper that
+// marks it done, so once it has left its last gate it reads "blocked" - which is "idle" for the model
+var mrKPC = map[string]string{"r_unlist": "unlist", "r_unmap": "unmap", "done": "idle", "absent": "idle", "blocked": "idle"}
+var mrKEvent = map[string]string{"r_unlist": "KUnlist", "r_unmap": "KUnmap"}
 var mrWEvent = map[string]string{"w_start": "WCheck", "contains": "WContains", "append": "WAppend", "register": "WRegister"}
 var mrDEvent = map[string]string{"d_lookup": "DLookup", "d_ufrag": "DUfrag", "d_enq": "DEnq", "d_put": "DPut"}
 var mrREvent = map[string]string{"r_unlist": "RUnlist", "r_unmap": "RUnmap"}
@@ -114,7 +119,9 @@ func TestMuxRoute(t *testing.T) {
 			wc := map[string]int{}
 			wx := map[string]string{}
 			ru := "-"
-			injected := map[string]int{} // exact bytes -> n
+			kc := 0                           // the connection whose watcher is process k
+			var extraHandles []net.PacketConn // handles obtained by GetStale
+			injected := map[string]int{}      // exact bytes -> n
 			ngrams := 0
 			idx := func(c *ice.VerifMuxedConn) int {
 				for i, x := range conns {
@@ -187,8 +194,13 @@ func TestMuxRoute(t *testing.T) {
 				if rpc == "" {
 					rpc = s.at("r")
 				}
+				kpc := mrKPC[s.at("k")]
+				if kpc == "" {
+					kpc = s.at("k")
+				}
 				return map[string]any{"made": len(conns), "listed": listed, "amap": amap, "cu": ocu, "cf": ocf, "hclosed": ohc, "closed": ocl,
-					"caddrs": oca, "q": oq, "muxClosed": muxClosed, "wpc": wpc, "wc": owc, "wx": owx, "dpc": dpc, "rpc": rpc, "ru": ru}
+					"caddrs": oca, "q": oq, "muxClosed": muxClosed, "wpc": wpc, "wc": owc, "wx": owx, "dpc": dpc, "rpc": rpc, "ru": ru,
+					"kpc": kpc, "kc": kc}
 			}
 			logEv := func(ev string, extra map[string]any) {
 				m := map[string]any{"ev": ev, "post": obs()}
@@ -270,6 +282,8 @@ func TestMuxRoute(t *testing.T) {
 				case p == "r":
 					ev = mrREvent[site]
 					extra["u"] = ru
+				case p == "k":
+					ev = mrKEvent[site]
 				default:
 					ev = mrWEvent[site]
 					extra["p"] = p
@@ -317,9 +331,14 @@ func TestMuxRoute(t *testing.T) {
 						ok = true
 					}
 				case "CloseOp", "CloseConn":
-					if c := atoi(a[0]); c <= len(conns) && !hclosed[c] {
+					if c := atoi(a[0]); c <= len(conns) && !hclosed[c] && (!conc || mrKPC[s.at("k")] == "idle") {
+						if conc { // the connection's watcher goroutine becomes process k when it reaches removeConns
+							s.adoptAt("mr.r_unlist", "k")
+							kc = c
+						}
 						_ = handles[c-1].Close()
-						synctest.Wait() // the watcher goroutine (not under test) runs RemoveConnByUfrag to completion
+						synctest.Wait() // sequential mode: the watcher goroutine runs removeConns to completion; gated mode: it parks at its first gate
+						s.unadopt("mr.r_unlist")
 						hclosed[c] = true
 						logEv(name, map[string]any{"c": c})
 						ok = true
@@ -395,6 +414,39 @@ func TestMuxRoute(t *testing.T) {
 					}
 				case "RUnlist", "RUnmap":
 					ok = conc && mrREvent[s.at("r")] == name && gated("r")
+				case "KUnlist", "KUnmap":
+					ok = conc && mrKEvent[s.at("k")] == name && gated("k")
+				case "GetStale":
+					// GetConn for a ufrag whose connection is closed but still listed (its watcher is parked): one more handle on it
+					u, f := a[0], a[1]
+					cur, listedNow := ice.VerifMuxListed(mux, f == "6")[u]
+					if !conc || muxClosed || !listedNow {
+						break
+					}
+					if _, closedNow, _ := ice.VerifMuxConnInfo(cur); !closedNow {
+						break
+					}
+					h, err := mux.GetConn(u, mrLocal(f))
+					if err != nil {
+						break
+					}
+					extraHandles = append(extraHandles, h)
+					got := ice.VerifMuxUnderlying(h)
+					idx := 0
+					for i, c := range conns {
+						if c == got {
+							idx = i + 1
+						}
+					}
+					if idx == 0 { // a connection nobody had before: the mux created one - the model has no such step
+						handles = append(handles, h)
+						conns = append(conns, got)
+						cu, cf = append(cu, u), append(cf, f)
+						logEv("GetConn", map[string]any{"u": u, "f": f})
+					} else {
+						logEv("GetStale", map[string]any{"u": u, "f": f, "c": idx})
+					}
+					ok = true
 				}
 				if !ok {
 					st["skipped"]++
@@ -402,7 +454,7 @@ func TestMuxRoute(t *testing.T) {
 			}
 			if conc {
 				// bounded gated drain: every operation in progress finishes (the dispatcher stops at its read gate)
-				procs := append(append([]string{}, job.Writers...), "r", "d")
+				procs := append(append([]string{}, job.Writers...), "r", "d", "k")
 				sort.Strings(procs)
 				for round := 0; round < 12; round++ {
 					moved := false
@@ -434,7 +486,7 @@ func TestMuxRoute(t *testing.T) {
 			}
 			// leave
 			ice.VerifUDPMuxSetYield(nil)
-			for _, h := range handles {
+			for _, h := range append(handles, extraHandles...) {
 				_ = h.Close()
 			}
 			_ = mux.Close()
@@ -443,7 +495,7 @@ func TestMuxRoute(t *testing.T) {
 			}
 			synctest.Wait()
 			for _, n := range s.names() {
-				if a := s.at(n); a != "done" && n != "d" { // the adopted dispatcher has no wrapper that marks it done; the bubble waits for it
+				if a := s.at(n); a != "done" && n != "d" && n != "k" { // adopted goroutines (dispatcher, watcher) have no wrapper that marks them done; the bubble waits for them
 					t.Errorf("process %s did not finish (at %s)", n, a)
 				}
 			}
